@@ -18,15 +18,15 @@ TEXT = {
  "C07": ("exit-always-possible theorems from the invariants; fork-and-drain of every sampled implementation state", "4 C07"),
  "C08": ("finalize iff 600..1209600, frame theorem for non-preparing listings under every op, binding-until-expiry, forward-only status; per-id monitor on implementation traces, lifetime and time alphabets", "4 C08"),
  "C09": ("ids invariant (unique live ids, used ⊇ live, 0 marked) preserved by every handler and every op list; creation ⇒ fresh legal id; used sets only grow; createdOnce monitor + uniqueness on every dump", "4 C09"),
- "C10": ("pending-fee conservation per handler and over histories (ghost ledger), well-formedness and timeliness of pool messages, protobuf encode/decode round-trip for all byte strings; ghost-ledger monitor + byte comparison of every emitted message with encodeFund", "4 C10"),
- "C11": ("gate theorems (sum > 5000 ⇒ refused, = 5000 accepted), payouts ≤ half and remainder ≥ 1 for all amounts and all entry lists; boundary sums 4990/5000/5010 on both sides with 17+ collections", "4 C11"),
+ "C10": ("pending-fee conservation per handler and over histories (ghost ledger), also over histories with injected faults (C10Faults), well-formedness and timeliness of pool messages, protobuf encode/decode round-trip for all byte strings; ghost-ledger monitor + byte comparison of every emitted message with encodeFund", "4 C10"),
+ "C11": ("gate theorems (sum > 5000 ⇒ refused, = 5000 accepted), payouts ≤ half and remainder ≥ 1 for all amounts and all entry lists, lifted to every purchase from every reachable state (C11Reach); boundary sums 4990/5000/5010 on both sides with 17+ collections", "4 C11"),
  "C12": ("well-formedness invariant preserved by every handler and every op list, exact acceptance iffs for asks, creations and top-ups, payable-message theorem; checkWF on every dump, malformed stream, 25/26", "4 C12"),
  "C13": ("cycle iff (seconds and ns form), only-cycle frame over all handlers and ops, monotone stamp, >604800 s between switches over all histories, charged-now; week mark ±1 s alphabets", "4 C13"),
- "C14": ("exact iffs for register/update/remove, only-entry frame, bps invariant and key uniqueness over all histories, lookup specs; exhaustive registry histories over a boundary alphabet (depth 3 quick / 4 thorough)", "4 C14"),
- "C15": ("PARTIAL: abort ⇒ original world, fault at any message index aborts, retry = unfaulted, reply only id 1 — theorems about the model's transaction semantics (modelled after cw-multi-test, not verified); fault injection at every message position of payout-bearing ops + sub-message shape oracle on every response", "4 C15, 5"),
+ "C14": ("exact iffs for register/update/remove, only-entry frame, bps invariant and key uniqueness over all histories, history-level provenance of every entry change (C14Reach), lookup specs; exhaustive registry histories over a boundary alphabet (depth 3 quick / 4 thorough)", "4 C14"),
+ "C15": ("PARTIAL: abort ⇒ original world, fault at any message index aborts, retry = unfaulted, reply only id 1, and for histories with faults: all-or-nothing from every state, a faulty history = the fault-free history of its survivors, invariants and exits preserved (C15Reach) — theorems about the model's transaction semantics (modelled after cw-multi-test, not verified); fault injection at every message position of payout-bearing ops + sub-message shape oracle on every response", "4 C15, 5"),
  "C16": ("paging cover/exactness theorems, market/whitelist soundness and completeness, fee query vs cycle iff; every page 1..255 on owners with up to 260 records, ns times, fee query vs cycle attempts", "4 C16"),
- "C17": ("conservation, floor rounding, totality (no overflow/abort), message shape for all naturals < 2^128 and all legal entry lists; direct differential calls of calc_fee_coin / royalties (exhaustive 0..2000 quick, 0..50000 thorough, boundary sampling to 2^128-1)", "4 C17"),
- "C18": ("PARTIAL: the full statement is false of the code (known finding D5, counterexample proved in Lean and replayed); partial frame theorem for everything a forged call still cannot do; every observed breach is classified by call site, listed ones print KNOWN-FINDING, any other is a VIOLATION", "4 C18, 3, 5"),
+ "C17": ("conservation, floor rounding, totality (no overflow/abort), message shape for all naturals < 2^128 and all legal entry lists, lifted to every purchase from every reachable state (C17Reach); direct differential calls of calc_fee_coin / royalties (exhaustive 0..2000 quick, 0..50000 thorough, boundary sampling to 2^128-1)", "4 C17"),
+ "C18": ("PARTIAL: the full statement is false of the code (known finding D5, counterexample proved in Lean and replayed); partial frame theorem for everything a forged call still cannot do, lifted to whole histories that contain forged calls (C18Reach); every observed breach is classified by call site, listed ones print KNOWN-FINDING, any other is a VIOLATION", "4 C18, 3, 5"),
  "C19": ("refusal theorem for every non-deposit kind with funds and for the hooks, failed ⇒ world unchanged, successful non-deposit op never debits its sender; message kind × coin set × state probe matrix in forks", "4 C19"),
 }
 
